@@ -4,7 +4,8 @@
   * a second `Len()` of a PacketOut / BundleAdd gives the same answer when that holds for the embedded message;
   * the same for the payload `SetData` stores (util.Buffer) and for a FlowMod / GroupMod inside a bundle;
   * the four multipart request bodies: reported size = encoded size (mod 2^16), through the interface dispatch;
-  * a bucket whose actions are all of a padded kind encodes to a multiple of 8 bytes;
+  * Bucket / GroupMod: reported size = bytes produced while everything fits in 64 KiB (proved from the model), and
+    GroupMod.Len() is repeatable;
   * what `NewOfp13Header()` + Type is as a value.
 -/
 import OFV.Model.All
@@ -18,6 +19,142 @@ import OFV.Props.C06b
 import OFV.Props.C13
 namespace OFV.Frame
 open OFV OFV.Go OFV.Model OFV.Spec OFV.Props InstrAux
+
+/-! ### buckets and GroupMod (proved from the model: the encoder writes the padding Len() counts) -/
+
+/-- Bucket: the encoding is the 16 fixed bytes, the complete action encodings and zero padding up to the reported
+    (rounded) size.  As long as it does not exceed 65528 bytes — the largest size a bucket can report — the reported
+    size is exactly the number of bytes produced. -/
+theorem bucket_size_fits (v : V) (l : UInt16) (v1 : V) (bs : Bytes) (v2 : V)
+    (h1 : Bucket.lenM v = .ok (l, v1)) (h2 : Bucket.marshalM v = .ok (bs, v2)) (hfit : bs.length ≤ 65528) :
+    l.toNat = bs.length := by
+  unfold Bucket.marshalM at h2
+  obtain ⟨⟨l', v'⟩, hl, h3⟩ := bind_ok_inv _ _ _ h2
+  rw [h1] at hl
+  cases hl
+  unfold Bucket.lenM at h1
+  split at h1
+  · obtain ⟨⟨ls, as'⟩, hm, h1'⟩ := bind_ok_inv _ _ _ h1
+    cases h1'
+    simp only at h3
+    split at h3
+    · rename_i heq
+      cases heq
+      obtain ⟨⟨abs, as'', e⟩, hml, h4⟩ := bind_ok_inv _ _ _ h3
+      simp only at h4
+      split at h4
+      · exact absurd h4 (by simp)
+      · cases h4
+        have key := marshalList_length_after Action.lenM Action.marshalM _ _ _ _ _ _ _ hm hml
+          (fun x _ => Action.marshalM_noErr x)
+          (fun x _ l y b z hx hy => (C06b.action_size y).toMod l y b z (Action.lenM_idem x l y hx) hy)
+        simp only [List.length_append, be16_length, be32_length, zeros_length] at hfit ⊢
+        have hs : (16 + sum16 ls : UInt16).toNat = 16 + abs.length := by
+          rw [UInt16.toNat_add, key]
+          have h2' : (2:Nat) ^ 16 = 65536 := rfl
+          have h16 : (16 : UInt16).toNat = 16 := rfl
+          rw [h2', h16]; omega
+        have hr := round8_ge (16 + sum16 ls) (by omega)
+        omega
+    · exact absurd h3 (by simp)
+  · exact absurd h1 (by simp)
+
+/-- the buckets of a GroupMod, sized and then encoded (each from a copy): as long as everything fits in 64 KiB minus the
+    16 bytes in front, the sizes add up to the number of bytes produced -/
+theorem buckets_size : ∀ (bks : List V) (ls : List UInt16) (bks1 : List V) (bss : List Bytes) (bks2 : List V),
+    mapM2 Bucket.lenM bks = .ok (ls, bks1) → mapM2 Bucket.marshalCopyM bks1 = .ok (bss, bks2) →
+    bss.flatten.length ≤ 65528 → (sum16 ls).toNat = bss.flatten.length := by
+  intro bks
+  induction bks with
+  | nil =>
+    intro ls bks1 bss bks2 h1 h2 _
+    simp [mapM2] at h1
+    obtain ⟨rfl, rfl⟩ := h1
+    simp [mapM2] at h2
+    obtain ⟨rfl, rfl⟩ := h2
+    rfl
+  | cons x xs ih =>
+    intro ls bks1 bss bks2 h1 h2 hfit
+    obtain ⟨l, x', ls', xs', hx, hxs, rfl, rfl⟩ := mapM2_cons_ok _ _ _ _ _ h1
+    obtain ⟨b, x'', bss', zs', hb, hbs, rfl, rfl⟩ := mapM2_cons_ok _ _ _ _ _ h2
+    simp only [List.flatten_cons, List.length_append] at hfit ⊢
+    unfold Bucket.marshalCopyM at hb
+    obtain ⟨⟨b', z'⟩, hmb, hb'⟩ := bind_ok_inv _ _ _ hb
+    cases hb'
+    have e1 := bucket_size_fits x' l x' b z' (Bucket.lenM_idem x l x' hx) hmb (by omega)
+    have e2 := ih ls' xs' bss' zs' hxs hbs (by omega)
+    rw [sum16_cons, UInt16.toNat_add, e1, e2]
+    have h2' : (2:Nat) ^ 16 = 65536 := rfl
+    rw [h2']; omega
+
+/-- GroupMod, every command, any buckets with any actions: as long as the encoding is shorter than 64 KiB, the size
+    Len() reports is the number of bytes produced -/
+theorem groupMod_size (v : V) (l : UInt16) (v1 : V) (bs : Bytes) (v2 : V)
+    (h1 : GroupMod.lenM v = .ok (l, v1)) (h2 : GroupMod.marshalM v = .ok (bs, v2)) (hlt : bs.length < 65536) :
+    bs.length = l.toNat := by
+  unfold GroupMod.marshalM at h2
+  obtain ⟨⟨l', v'⟩, hl, h3⟩ := bind_ok_inv _ _ _ h2
+  rw [h1] at hl
+  cases hl
+  unfold GroupMod.lenM at h1
+  split at h1
+  · rename_i hh cmdn tt pp gg bks'
+    split at h1
+    · rename_i hdel
+      cases h1
+      simp only at h3
+      split at h3
+      · rename_i heq2
+        cases heq2
+        obtain ⟨hb, hhb, h4⟩ := bind_ok_inv _ _ _ h3
+        simp only [hdel, if_true, Res.bind_ok] at h4
+        split at h4
+        · exact absurd h4 (by simp)
+        · cases h4
+          have := Header.bytes_length _ _ hhb
+          simp [this]
+      · exact absurd h3 (by simp)
+    · rename_i hdel
+      obtain ⟨⟨ls, bks''⟩, hm, h1'⟩ := bind_ok_inv _ _ _ h1
+      cases h1'
+      simp only at h3
+      split at h3
+      · rename_i heq2
+        cases heq2
+        obtain ⟨hb, hhb, h4⟩ := bind_ok_inv _ _ _ h3
+        simp only [hdel, if_false] at h4
+        obtain ⟨⟨bb, bks3, e⟩, hml, h5⟩ := bind_ok_inv _ _ _ h4
+        simp only at h5
+        split at h5
+        · exact absurd h5 (by simp)
+        · cases h5
+          obtain ⟨bss, hmm, rfl⟩ := marshalList_eq_mapM2 _ _ _ _ _ _ (fun x _ => Bucket.marshalCopyM_noErr x) hml
+          have e8 := Header.bytes_length _ _ hhb
+          simp only [List.length_append, e8, be16_length, be32_length, List.length_cons, List.length_nil] at hlt ⊢
+          have key := buckets_size _ _ _ _ _ hm hmm (by omega)
+          rw [UInt16.toNat_add, key]
+          have h2' : (2:Nat) ^ 16 = 65536 := rfl
+          have h16 : (16 : UInt16).toNat = 16 := rfl
+          rw [h2', h16]; omega
+      · exact absurd h3 (by simp)
+  · exact absurd h1 (by simp)
+
+/-- GroupMod.Len() twice: same answer, nothing changes further -/
+theorem groupMod_lenIdem (v : V) : LenIdem GroupMod.lenM v := by
+  intro l v1 hl
+  unfold GroupMod.lenM at hl
+  split at hl
+  · rename_i h cmd t p g bks
+    split at hl
+    · rename_i hdel
+      cases hl
+      simp only [GroupMod.lenM, hdel, if_true]
+    · rename_i hdel
+      obtain ⟨⟨ls, bks1⟩, hm, hl2⟩ := bind_ok_inv _ _ _ hl
+      cases hl2
+      have := mapM2_idem Bucket.lenM _ _ _ (fun x _ a x' hx => Bucket.lenM_idem x a x' hx) hm
+      simp only [GroupMod.lenM, hdel, if_false, this, Res.bind_ok]
+  · exact absurd hl (by simp)
 
 /-! ### repeatable Len() of the containers whose encoder calls Len() twice -/
 
@@ -69,9 +206,16 @@ theorem bundled_groupMod_lenIdem (fs : List V) : LenIdem (msgAnyLenD 7) (.obj "G
   have e : ∀ fs, msgAnyLenD 7 (.obj "GroupMod" fs) = GroupMod.lenM (.obj "GroupMod" fs) := fun _ => rfl
   intro l v1 hl
   rw [e] at hl
-  have h2 := (C13.groupMod_repeatable _).lenIdem l v1 hl
-  obtain ⟨_, _, _, _, _, _, _, _, hv1, _⟩ := C13.groupMod_len_shape _ l v1 hl
-  subst hv1
+  have h2 := groupMod_lenIdem _ l v1 hl
+  have hk : ∃ fs', v1 = .obj "GroupMod" fs' := by
+    unfold GroupMod.lenM at hl
+    split at hl
+    · split at hl
+      · cases hl; exact ⟨_, rfl⟩
+      · obtain ⟨_, _, hl2⟩ := bind_ok_inv _ _ _ hl
+        cases hl2; exact ⟨_, rfl⟩
+    · exact absurd hl (by simp)
+  obtain ⟨fs', rfl⟩ := hk
   rw [e]; exact h2
 
 /-- a PortMod as the message of a bundle: Len() is a constant and changes nothing -/
@@ -136,31 +280,6 @@ theorem mpBody_size (b : V) (hb : IsMpBody b) :
     have e2 : anyMarshalM (.obj "QueueStatsRequest" fs) = QueueStatsRequest.marshalM (.obj "QueueStatsRequest" fs) := rfl
     rw [e2] at h2
     exact (C06b.queueStatsRequest_size _).toMod _ _ bb b'' rfl h2
-
-/-! ### buckets -/
-
-/-- actions of padded kinds, sized and then encoded: the concatenated encodings are a multiple of 8 bytes long -/
-theorem actions_encoding_aligned : ∀ (xs : List V) (ls : List UInt16) (ys : List V) (bss : List Bytes) (zs : List V),
-    mapM2 Action.lenM xs = .ok (ls, ys) → mapM2 Action.marshalM ys = .ok (bss, zs) →
-    (∀ x ∈ xs, x.kind ∈ PaddedKinds) → bss.flatten.length % 8 = 0 := by
-  intro xs
-  induction xs with
-  | nil =>
-    intro ls ys bss zs h1 h2 _
-    simp [mapM2] at h1
-    obtain ⟨rfl, rfl⟩ := h1
-    simp [mapM2] at h2
-    obtain ⟨rfl, rfl⟩ := h2
-    rfl
-  | cons x xs ih =>
-    intro ls ys bss zs h1 h2 hk
-    obtain ⟨a, x', as', xs', hx, hxs, rfl, rfl⟩ := mapM2_cons_ok _ _ _ _ _ h1
-    obtain ⟨b, x'', bs', zs', hb, hbs, rfl, rfl⟩ := mapM2_cons_ok _ _ _ _ _ h2
-    have e1 := C06b.action_size x' a x' b x'' (Action.lenM_idem x a x' hx) hb
-    have e2 := C06b.action_len_aligned x (hk x (by simp)) a x' hx
-    have e3 := ih as' xs' bs' zs' hxs hbs (fun y hy => hk y (by simp [hy]))
-    simp only [List.flatten_cons, List.length_append]
-    omega
 
 /-! ### NewOfp13Header() -/
 
